@@ -231,7 +231,13 @@ type EnvRec struct {
 }
 
 // every scalar kind (C03)
+// two embedded structs with the same field at the same depth: `Amb` is ambiguous in EnvScalars
+type ZAmb1 struct{ Amb int }
+type ZAmb2 struct{ Amb int }
+
 type EnvScalars struct {
+	ZAmb1
+	ZAmb2
 	I    int
 	I8   int8
 	I16  int16
@@ -264,11 +270,16 @@ type EnvScalars struct {
 	Fv   func(string, ...int) int
 	Fa   func(interface{}) interface{}
 	Fb   func(bool, int64) bool
+	Fx   func(...interface{}) interface{} // the shape of a "fast" function
+	Fy   func(...interface{}) int         // variadic over interface{}, but not fast (result type)
+	Fn   func()                           // no result
+	F2   func() (int, int)                // two results
 }
 
-func (EnvScalars) Mi(a int, b string) int { return a + len(b) }
-func (EnvScalars) Ms(s string) string     { return s }
-func (*EnvScalars) Mp(f float64) float64  { return f }
+func (EnvScalars) Mi(a int, b string) int           { return a + len(b) }
+func (EnvScalars) Ms(s string) string               { return s }
+func (EnvScalars) Mx(xs ...interface{}) interface{} { return len(xs) } // a "fast" method
+func (*EnvScalars) Mp(f float64) float64            { return f }
 
 // defined map type with a method
 type EnvNamedMap map[string]interface{}
